@@ -50,6 +50,23 @@ func expectBits(c *Check, rule, key, pos string, got BV, found bool, spec string
 	c.Decide(found && got.Equal(want), rule, key, pos, "= "+want.String(), "the encoder puts ["+g+"] here, the cEMI specification prescribes ["+want.String()+"]")
 }
 
+// lenClass classifies a path by the interval of a length symbol: "long"
+// (>= 256 on the whole path), "empty" (0), "mid" (within 1..255), "mixed".
+func lenClass(pp *lpath, sym string) string {
+	iv := pp.env.get(sym)
+	switch {
+	case iv.lo >= 256:
+		return "long"
+	case iv.hi <= 0:
+		return "empty"
+	case iv.lo >= 1 && iv.hi <= 255:
+		return "mid"
+	case iv.lo >= 0 && iv.hi <= 255:
+		return "short" // 0..255, not distinguished further on this path
+	}
+	return "mixed"
+}
+
 func hasCond(pp *lpath, sub string) bool {
 	for _, cnd := range pp.conds {
 		if strings.Contains(cnd, sub) {
@@ -183,8 +200,7 @@ func checkC11(c *Check, p *Program) {
 		pos := p.Pos(f.Pos())
 		for _, pp := range runEncoder(p, f) {
 			b, found := byteAt(pp, zero, 0)
-			long := hasCond(pp, "> 255")
-			if long && !hasCond(pp, "<= 255") {
+			if lenClass(pp, "len(r)") == "long" {
 				expectBits(c, "C11.encode", "Info length octet, oversize path", pos, b, found, "11111111")
 			} else {
 				expectBits(c, "C11.encode", "Info length octet", pos, b, found, "len(r)[7..0]")
@@ -207,16 +223,16 @@ func checkC11(c *Check, p *Program) {
 				expectBits(c, "C11.encode", "AppData TPCI/APCI octet "+lab, pos, b1, f1, "0 0 0000 r.Command[3..2]")
 			}
 			b2, f2 := byteAt(pp, zero, 2)
-			if hasCond(pp, "< 1") && !hasCond(pp, ">= 1") {
+			if lenClass(pp, "len(r.Data)") == "empty" {
 				expectBits(c, "C11.encode", "AppData APCI/data octet "+lab, pos, b2, f2, "r.Command[1..0] 000000")
 			} else {
 				expectBits(c, "C11.encode", "AppData APCI/data octet "+lab, pos, b2, f2, "r.Command[1..0] r.Data[0][5..0]")
 			}
 			b0, f0 := byteAt(pp, zero, 0)
 			switch {
-			case hasCond(pp, "> 255") && !hasCond(pp, "<= 255"):
+			case lenClass(pp, "len(r.Data)") == "long":
 				expectBits(c, "C11.encode", "AppData length octet "+lab, pos, b0, f0, "11111111")
-			case hasCond(pp, "< 1") && !hasCond(pp, ">= 1"):
+			case lenClass(pp, "len(r.Data)") == "empty":
 				expectBits(c, "C11.encode", "AppData length octet "+lab, pos, b0, f0, "00000001")
 			default:
 				expectBits(c, "C11.encode", "AppData length octet "+lab, pos, b0, f0, "len(r.Data)[7..0]")
